@@ -2364,6 +2364,9 @@ def run(ctx):
         "_create_components() as objects (the selector's loading is C14); the driver station (FMS attached, enabled) is "
         "wpilib's simulated one and keeps one state during a start-up")
     ctx.prove()
+    # inject.py's two loops, translated from the current source and proved equal to the model (Inject/SrcInjectProofs.v)
+    from . import c08_translate
+    c08_translate.obligation(ctx)
     n_random = 30000 if ctx.tier == "thorough" else 2000
     specs = load_corpus()
     ncorpus = len(specs)
